@@ -389,7 +389,7 @@ class TreeGen:
         items, lines = self.gen_items(self.root_loc, 0, [])
         files = {k: v for k, v in self.files.items() if v is not None}
         return {'files': files, 'root': {'items': items, 'text': '\n'.join(lines)}, 'urlFn': self.root_loc, 'systemPrefix': self.prefix,
-                'maxStatements': self.max_statements, 'fetch': self.fetch}
+                'maxStatements': self.max_statements, 'fetch': self.fetch, 'acyclic': not self.cycle}
 
 
 def model_request(case, gas=None):
@@ -398,7 +398,7 @@ def model_request(case, gas=None):
         files.append([loc, {'text': f['items']} if f['kind'] == 'text' else f['kind']])
     ms = case['maxStatements']
     return {'op': 'run', 'files': files, 'root': case['root']['items'], 'urlFn': case['urlFn'], 'systemPrefix': case['systemPrefix'],
-            'maxStatements': ms, 'fetch': case['fetch'],
+            'maxStatements': ms, 'fetch': case['fetch'], 'spec': bool(case.get('acyclic')) and bool(case['fetch']),
             'gas': gas if gas is not None else (min(ms, 400) + 2 if 0 < ms < BIG else len(files) + 3)}
 
 
@@ -559,7 +559,7 @@ def check_case(ctx, st, case, resp, origin):
     iobs = {k: impl[k] for k in ('events', 'outcome', 'trace', 'statementCount')}
     ctx.compare('include', _slim(case), iobs, mobs)
     # 1b. Lean mirror vs Lean spec on this case (theorem run_spec), when the run was not cut by the budget
-    if 'events' in resp and resp['outcome']['kind'] not in ('exceeded', 'outOfGas'):
+    if 'specEvents' in resp and resp['outcome']['kind'] not in ('exceeded', 'outOfGas'):
         if resp['events'] != resp['specEvents'] or resp['outcome'] != resp['specOutcome']:
             ctx.disagree('include', _slim(case), {'events': resp['events'], 'outcome': resp['outcome']},
                          {'events': resp['specEvents'], 'outcome': resp['specOutcome']}, note='Lean mirror vs Lean spec (theorem run_spec)')
@@ -774,7 +774,7 @@ def stream_cli(ctx):
             if kind == 'ok' and root_returns:
                 want = mlog
                 want_code = None
-            nf = len(resp.get('expectedFetches', []))
+            nf = sum(1 for e in resp['events'] if e[0] == 'fetch')
             st.case({'root': case['root']['text'], 'files': len(case['files'])}, nontrivial=nf > 0,
                     tags=['random', 'outcome:' + kind, 'relative-invocation' if not os.path.isabs(case['urlFn']) else 'absolute-invocation'])
             ok = ctx.compare('cli', {'root': case['root']['text'], 'files': {k: v.get('text') for k, v in case['files'].items()}},
